@@ -233,13 +233,53 @@ def alternatives(sc: Schemas, s, inherited=None):
     return [tag({"kind": "any"})]
 
 
+def expand_pattern(pat):
+    """keywords matched by a patternProperties regex made of literals and (a|b) groups; None when it is more general"""
+    m = re.match(r"^\^(.*)\$$", pat)
+    if not m:
+        return None
+    body = m.group(1)
+    parts = [""]
+    i = 0
+    while i < len(body):
+        ch = body[i]
+        if ch == "(":
+            j = body.find(")", i)
+            if j < 0:
+                return None
+            alts = body[i + 1:j].split("|")
+            if any(not re.match(r"^[a-z0-9_\-]*$", a) for a in alts):
+                return None
+            parts = [p + a for p in parts for a in alts]
+            i = j + 1
+        elif re.match(r"[a-z0-9_\-]", ch):
+            parts = [p + ch for p in parts]
+            i += 1
+        else:
+            return None
+    return parts
+
+
 def schema_tables(repo=REPO):
     sc = Schemas(repo)
     types = {}
+    unexpanded = []
     for t in sc.object_types():
         s = sc.raw[t]
         props = {}
-        for k, v in s.get("properties", {}).items():
+        allprops = list(s.get("properties", {}).items())
+        # keywords a schema allows through patternProperties (other than the hidden-key pattern) are keywords too
+        for pat, pv in (s.get("patternProperties") or {}).items():
+            if pat == "^__[a-z]+__$":
+                continue
+            kws = expand_pattern(pat)
+            if kws is None:
+                unexpanded.append([t, pat])
+                continue
+            for kw in kws:
+                if kw not in s.get("properties", {}):
+                    allprops.append((kw, pv))
+        for k, v in allprops:
             if k.startswith("__"):
                 continue
             vd, _ = sc.deref(v)
@@ -261,7 +301,7 @@ def schema_tables(repo=REPO):
             "hidden_pattern": "^__[a-z]+__$" in (s.get("patternProperties") or {}),
         }
     simple = {n: s for n, s in sc.raw.items() if n not in types}
-    return {"types": types, "other_schemas": sorted(simple.keys())}
+    return {"types": types, "other_schemas": sorted(simple.keys()), "pattern_unexpanded": unexpanded}
 
 
 # ---------------------------------------------------------------- derived tables
@@ -453,6 +493,8 @@ def emit_tla(vocab, path):
                     hmin.append("<<%s, %s>>" % (tla_str(ty), tla_str(k)))
                 if "maximum" in alts[0]:
                     hmax.append("<<%s, %s>>" % (tla_str(ty), tla_str(k)))
+    L.append("\\* <<type, pattern>>: patternProperties the extractor cannot turn into a finite keyword list")
+    L.append("PatternUnexpanded == " + tla_set("<<%s, %s>>" % (tla_str(a), tla_str(b)) for a, b in s.get("pattern_unexpanded", [])))
     L.append("HasMin == " + tla_set(hmin))
     L.append("HasMax == " + tla_set(hmax))
     L.append("====")
